@@ -529,3 +529,156 @@ def fold_loop(c):
             s2.cells.pop(acc_cell, None)
             out.append((s2, r))
     return out
+
+
+# ------------------------------------------------------------------------------------------- iterators over listed elements
+# An iterator whose remaining elements are known one by one (a short list: array literal, constant array, a scripted
+# sequence) is transformed element by element, the closures being called in context; predicates that a path does not
+# decide fork the path.  Everything else falls through to the summarising models.
+
+LISTED_OPS = ("map", "filter", "copied", "cloned", "collect", "any", "all", "find", "position", "count", "enumerate", "for_each", "filter_map", "find_map", "rev", "next")
+
+
+def listed_elems(v):
+    return [v.items.f[i] for i in sorted(v.items.f)] if isinstance(v, Iter) and is_listed(v.items) and not v.maps and not v.enumerated else None
+
+
+def mk_listed(vals, kind="vec"):
+    return Iter(Lin.const(len(vals)), False, kind, None, Struct({i: x for i, x in enumerate(vals)}, tag="elems"))
+
+
+def as_truth(c, st, v):
+    """-> list of (state, bool) for a boolean abstract value (forks when the path does not decide it)"""
+    if isinstance(v, Cond):
+        k = c.it.cond_known(st, v)
+        if k is not None:
+            return [(st, k)]
+        s1, s2 = st, st.copy()
+        out = []
+        # (the decision stays on the path's trace, so that paths that decided differently are never merged)
+        if c.it.assume(s1, v, True) and not s1.sys.bottom:
+            event(s1, "decided", repr(v)[:120], True)
+            out.append((s1, True))
+        if c.it.assume(s2, v, False) and not s2.sys.bottom:
+            event(s2, "decided", repr(v)[:120], False)
+            out.append((s2, False))
+        return out
+    if isinstance(v, Num):
+        cv = st.sys.const_value(v.e)
+        if cv is not None:
+            return [(st, cv != 0)]
+        s1, s2 = st, st.copy()
+        out = []
+        if c.it.assume(s1, v, True) and not s1.sys.bottom:
+            out.append((s1, True))
+        if c.it.assume(s2, v, False) and not s2.sys.bottom:
+            out.append((s2, False))
+        return out
+    return [(st, True), (st.copy(), False)]
+
+
+@first(r"^<.* as std::iter::Iterator>::(map|filter|copied|cloned|collect|any|all|find|position|count|filter_map|find_map|rev)(::<.*>)?$")
+def listed_adaptor(c):
+    recv = c.args[0]
+    by_ref = isinstance(recv, Ref)
+    v = c.deref(recv)
+    elems = listed_elems(v)
+    if elems is None or len(elems) > 6:
+        return c.it.models.lookup_after(c.name, listed_adaptor)(c)
+    op = re.search(r" as std::iter::Iterator>::(\w+)(::<.*>)?$", c.name).group(1)
+    if op in ("copied", "cloned"):
+        return [(c.st, mk_listed([c.deref(x) for x in elems], v.kind))]
+    if op == "rev":
+        return [(c.st, mk_listed(list(reversed(elems)), v.kind))]
+    if op == "count":
+        return [(c.st, Num(Lin.const(len(elems))))]
+    if op == "collect":
+        rt = c.ret_ty()
+        if rt.get("k") == "adt" and rt["path"] in ("std::vec::Vec", "smallvec::SmallVec", "std::boxed::Box"):
+            return [(c.st, Seq(Lin.const(len(elems)), None, Struct({i: x for i, x in enumerate(elems)}, tag="elems") if elems else EMPTY))]
+        return c.it.models.lookup_after(c.name, listed_adaptor)(c)
+    f = c.args[1] if len(c.args) > 1 else None
+    if f is None:
+        return c.it.models.lookup_after(c.name, listed_adaptor)(c)
+
+    def call(st, x, tag):
+        # closures of filter / find / position take a reference to the element
+        arg = x
+        if op in ("filter", "find", "position"):
+            cell = "%s/%d.%d:le%s" % (c.fr.id, c.bb, c.part, tag)
+            st.cells[cell] = x
+            arg = Ref(cell)
+        return c.call_closure(st, f, [arg], "l%s" % tag)
+    if op == "map":
+        states = [(c.st, [])]
+        for i, x in enumerate(elems):
+            nxt = []
+            for st, acc in states:
+                res = call(st, x, "m%d" % i)
+                if res is None:
+                    return c.it.models.lookup_after(c.name, listed_adaptor)(c)
+                for st2, r in res:
+                    nxt.append((st2, acc + [r]))
+            states = nxt
+        return [(st, mk_listed(acc, v.kind)) for st, acc in states]
+    if op == "filter":
+        states = [(c.st, [])]
+        for i, x in enumerate(elems):
+            nxt = []
+            for st, acc in states:
+                res = call(st, x, "f%d" % i)
+                if res is None:
+                    return c.it.models.lookup_after(c.name, listed_adaptor)(c)
+                for st2, r in res:
+                    for st3, t in as_truth(c, st2, r):
+                        nxt.append((st3, acc + [x] if t else acc))
+            states = nxt
+        return [(st, mk_listed(acc, v.kind)) for st, acc in states]
+    if op in ("any", "all", "find", "position"):
+        out = []
+        states = [c.st]
+        for i, x in enumerate(elems):
+            nxt = []
+            for st in states:
+                res = call(st, x, "p%d" % i)
+                if res is None:
+                    return c.it.models.lookup_after(c.name, listed_adaptor)(c)
+                for st2, r in res:
+                    for st3, t in as_truth(c, st2, r):
+                        stop = t if op in ("any", "find", "position") else not t
+                        if stop:
+                            if by_ref:
+                                c.it.store(st3, recv.cell, recv.path, mk_listed(elems[i + 1:], v.kind))
+                            if op == "any":
+                                out.append((st3, Cond("const", True)))
+                            elif op == "all":
+                                out.append((st3, Cond("const", False)))
+                            elif op == "find":
+                                out.append((st3, Enum(OPTION, {1: Struct({0: x})})))
+                            else:
+                                out.append((st3, Enum(OPTION, {1: Struct({0: Num(Lin.const(i))})})))
+                        else:
+                            nxt.append(st3)
+            states = nxt
+        for st in states:
+            if by_ref:
+                c.it.store(st, recv.cell, recv.path, mk_listed([], v.kind))
+            out.append((st, Cond("const", False) if op == "any" else Cond("const", True) if op == "all" else Enum(OPTION, {0: Struct()})))
+        return out
+    return c.it.models.lookup_after(c.name, listed_adaptor)(c)
+
+
+@first(r"^<.* as std::iter::Iterator>::next$")
+def listed_next(c):
+    """next() of any iterator whose remaining elements are known one by one: hands them out in order"""
+    recv = c.args[0]
+    v = c.deref(recv)
+    if not (isinstance(recv, Ref) and isinstance(v, Iter) and is_listed(v.items) and not v.maps and not v.enumerated):
+        return c.it.models.lookup_after(c.name, listed_next)(c)
+    idx = sorted(v.items.f)
+    if not idx:
+        return [(c.st, Enum(OPTION, {0: Struct()}))]
+    rest = Iter(Lin.const(len(idx) - 1), False, v.kind, None, Struct({i: v.items.f[i] for i in idx[1:]}, tag="elems"))
+    c.it.store(c.st, recv.cell, recv.path, rest)
+    event(c.st, "next", idx[0])
+    return [(c.st, Enum(OPTION, {1: Struct({0: v.items.f[idx[0]]})}))]
